@@ -275,8 +275,15 @@ CLAIMS['C03'].update(
     text=CLAIMS['C03']['text'] + ' The portable Montgomery reduction is decided per path when it branches on data: the quotient words of the path, a round with u == 0 contributing its untouched low word, must satisfy 2^n V + Z == T + U p.')
 CLAIMS['C10'].update(
     text=CLAIMS['C10']['text'] + ' The top-byte masks of the samplers and hash reductions equal 2^(bitlen mod 8) - 1 (value below 2p before the single conditional subtraction).')
+CLAIMS['C02'].update(
+    technique=CLAIMS['C02']['technique'] + '; alias dataflow over the field layer; flag discipline of the assembly carry chains',
+    text=CLAIMS['C02']['text'] + ' Every field-layer operation gives the same result with its output aliasing an input (its interface allows it). Every add-with-carry of the assembly routines consumes a cleared flag or the carry of an addition chain.')
+CLAIMS['C03'].update(
+    text=CLAIMS['C03']['text'] + ' Every add-with-carry of the assembly routines consumes a cleared flag or the carry of an addition chain (a stale flag is reported).')
+CLAIMS['C09'].update(
+    text=CLAIMS['C09']['text'] + ' A canonicality helper that compares raw coordinates with q must read every 48-byte coordinate slot of the instantiation.')
 for _p in CLAIMS:
-    CLAIMS[_p]['note'] = (CLAIMS[_p].get('note') or '') + ' New file-local helpers, closures, named boolean / reference locals and predicate helpers are normalised away before the rules run (jpv/normalise.py, jpv/cfg.py); a routine restructured beyond that is declined (exit 2), not reported.'
+    CLAIMS[_p]['note'] = (CLAIMS[_p].get('note') or '') + ' Functions and local names that the tree the rule tables were written for does not have (jpv/baseline_functions.txt, baseline_locals.txt), closures, pointer walks, infinite-loop / continue / leading-break forms and predicate helpers are rewritten exactly into the forms the tables know before the rules run (jpv/normalise.py, jpv/cfg.py); a routine restructured beyond that is declined (exit 2), not reported.'
 
 NA = {
 }
